@@ -305,6 +305,15 @@ def run(tier):
             cl = sorted({c.split('@')[0] for c in rej[r['id']]})
             v.reject(f"C11:{r['kind']}:" + ','.join(cl) + ':' + r['_label'].split('/')[0],
                      {'case': r['_label'], 'failed': sorted(set(rej[r['id']]))[:8]})
+    def _corrupt(r):
+        if r['kind'] != 'sim' or r['id'] in rej:
+            return None
+        for e in r['events']:
+            if e['ev'] == 'run' and e['trials']:
+                e['trials'][0]['success'] = not e['trials'][0]['success']
+                return r
+        return None
+    common.binding_selftest('c11', 'Simulation_Trace', recs, _corrupt, evaluator=eval_all)
     rc = v.finish()
     n_tr = sum(len(e.get('trials', [])) for r in recs for e in r.get('events', []))
     n_cal = sum(r.get('n_runs', 0) for r in recs if r['kind'] == 'calibration')
